@@ -416,6 +416,24 @@ theorem remote_lookalike_hosts_not_recognised :
     recognise "git@notgithub.com:u/r".toList = .ok none ∧
     recognise "https://evil.org/github.com/u/r".toList = .ok none := by decide
 
+/-- The documented forms of the four forges (https, `git@host:`, `host:`; with and without `.git`; nested GitLab
+groups) are recognised, with the slug a reader expects. (Concrete instances; that *every* recognised URL is linked
+to its own host and path is `remote_commit_link_points_at_origin`.) -/
+theorem remote_documented_forms_recognised :
+    recognise "https://github.com/dandavison/delta.git".toList = .ok (some ⟨"GitHub".toList, "dandavison/delta".toList⟩) ∧
+    recognise "git@github.com:dandavison/delta".toList = .ok (some ⟨"GitHub".toList, "dandavison/delta".toList⟩) ∧
+    recognise "github.com:dandavison/delta.git".toList = .ok (some ⟨"GitHub".toList, "dandavison/delta".toList⟩) ∧
+    recognise "https://gitlab.com/proj/grp/subgrp/repo.git".toList = .ok (some ⟨"GitLab".toList, "proj/grp/subgrp/repo".toList⟩) ∧
+    recognise "git@gitlab.com:proj/repo".toList = .ok (some ⟨"GitLab".toList, "proj/repo".toList⟩) ∧
+    recognise "gitlab.com:proj/grp/repo.git".toList = .ok (some ⟨"GitLab".toList, "proj/grp/repo".toList⟩) ∧
+    recognise "https://git.sr.ht/~someuser/somerepo".toList = .ok (some ⟨"SourceHut".toList, "~someuser/somerepo".toList⟩) ∧
+    recognise "git@git.sr.ht:~someuser/somerepo".toList = .ok (some ⟨"SourceHut".toList, "~someuser/somerepo".toList⟩) ∧
+    recognise "git.sr.ht:~someuser/somerepo".toList = .ok (some ⟨"SourceHut".toList, "~someuser/somerepo".toList⟩) ∧
+    recognise "https://codeberg.org/someuser/somerepo.git".toList = .ok (some ⟨"Codeberg".toList, "someuser/somerepo".toList⟩) ∧
+    recognise "git@codeberg.org:someuser/somerepo".toList = .ok (some ⟨"Codeberg".toList, "someuser/somerepo".toList⟩) ∧
+    recognise "codeberg.org:someuser/somerepo.git".toList = .ok (some ⟨"Codeberg".toList, "someuser/somerepo".toList⟩) := by
+  decide
+
 /-- A configured `hyperlinks-commit-link-format` always wins over the remote (the order of the `if let` chain of
 `format_commit_line_with_osc8_commit_hyperlink`, read from the source). -/
 theorem configured_commit_format_wins (subst : List Char → List Char → List Char) (fmt : List Char)
